@@ -53,8 +53,10 @@ def gen_history(rng, nd, ncmd):
             ops.append(('sync',))
         elif c < 0.7:
             ops.append(('sync', '-B', str(rng.randint(1, 3))) + (('-S', str(rng.randint(0, 2))) if rng.random() < 0.4 else ()))
-        elif c < 0.8:
+        elif c < 0.78:
             ops.append(('sync', '--test-force-autosave-at', str(rng.randint(0, 3)), '--test-kill-after-sync'))
+        elif c < 0.84:
+            ops.append(('sync', '@fail', 'd%d' % rng.randint(1, nd), rng.choice(names), rng.choice(['E', 'I'])))   # a file unreadable during the sync
         elif c < 0.88:
             ops.append(('scrub', '-p', 'full'))
         elif c < 0.94:
@@ -194,6 +196,11 @@ class Hist:
             self.invariants('fix -m')
             return
         args = list(op)
+        self.fail = None
+        if op[0] == 'sync' and '@fail' in op:
+            k = op.index('@fail')
+            self.fail = (op[k + 1], op[k + 2], op[k + 3])
+            args = list(op[:k])
         if op[0] == 'sync':
             args += ['--force-empty', '--force-zero']
         if op[0] == 'sync' and self.with_model and '--test-kill-after-sync' not in op and '-F' not in op:
@@ -201,6 +208,8 @@ class Hist:
         else:
             r = a.run(*args)
             self.log.append(args + [r.rc])
+        if self.fail:
+            self.log[-1] = self.log[-1] + ['@fail'] + list(self.fail)
         st = self.invariants(' '.join(args))
         if st is not None:
             self.br.learn_hashes(st)
@@ -312,7 +321,17 @@ class Hist:
         c_toks = br.ser_content(st1)
         p_toks = br.ser_parity()
         self.model_in_parity = [list(lv) for lv in br.parity]
-        r = a.run(*args)
+        q_toks = ['Q', '0']
+        senv = None
+        if self.fail:
+            fd, fn, kind = self.fail
+            order = {m['name']: m['pos'] for m in st1['maps']}
+            hits = [(b[1], order[fd]) for f in st1['disks'].get(fd, {'files': []})['files'] if f['sub'].decode('latin1') == fn for b in f['blocks']]
+            if hits and fd in order:
+                q_toks = ['Q', str(len(hits))] + [t for pos, dp in hits for t in (str(pos), str(dp), kind)]
+                # E: the file cannot be opened (ENOENT) ; I: every read of it fails with EIO
+                senv = {'VSHIM_FAIL': ('open:%s:0:2' if kind == 'E' else 'pread:%s:0:5') % os.path.join(a.root, fd, fn)}
+        r = a.run(*args, shim_env=senv)
         self.log.append(args + [r.rc])
         try:
             st2 = a.content()
@@ -325,7 +344,7 @@ class Hist:
         mx = blockmax if (cnt == 0 or start + cnt >= blockmax) else start + cnt
         # `now` only matters for the info time: take it from the real result
         now = max([i['time'] for i in st2['info'] if i] + [0])
-        req = ['sync', '0', '0', str(iol), str(now), str(a.bs), str(a.np), '-1', str(start), str(mx)] + br.ser_hashes() + c_toks + p_toks + fs_toks + ['Q', '0']
+        req = ['sync', '0', '0', str(iol), str(now), str(a.bs), str(a.np), '-1', str(start), str(mx)] + br.ser_hashes() + c_toks + p_toks + fs_toks + q_toks
         out = run_lines(self.model, [' '.join(req)], shards=1)[0]
         self.model_steps += 1
         if not out.startswith('ok '):
